@@ -114,8 +114,8 @@ func evalExecBlock(vm *r.VM, execBlock *syntax.ExecBlock, params []r.Element) (r
 			return nil, err
 		}
 
-		// set inputValue to current scope
-		if err := vm.DeclareElement(idTag, params[idx]); err != nil {
+		// set inputValue to current scope (inputs are constants: they cannot be reassigned)
+		if err := vm.DeclareConstElement(idTag, params[idx]); err != nil {
 			return nil, err
 		}
 	}
@@ -775,8 +775,8 @@ func evalMemberMethodExpr(vm *r.VM, expr *syntax.MemberMethodExpr) (r.Element, e
 			return nil, err
 		}
 
-		// bind yield result
-		if err := vm.DeclareElement(vtag, vlast); err != nil {
+		// bind yield result (read-only, as for a direct function call)
+		if err := vm.DeclareConstElement(vtag, vlast); err != nil {
 			return nil, err
 		}
 	}
